@@ -342,8 +342,8 @@ def model_behaviours(chk, tier, known, rng):
         confs = [("g_t2_l1", consts(3, known, 2, 1, 1, 2, toseq=(1, 2)), 100000),
                  ("g_crash", consts(3, known, 1, 1, 1, 2, crash=1, toseq=(1,)), 100000),
                  ("g_l2", consts(3, known, 1, 2, 2, 2, toseq=(2,)), 100000),
-                 ("g_t2_o2", consts(3, known, 2, 1, 2, 2, toseq=(1, 3)), 6000),
-                 ("g_t3", consts(3, known, 3, 1, 2, 2, toseq=(1, 2, 1)), 5000)]
+                 ("g_t2_o2", consts(3, known, 2, 1, 2, 2, toseq=(1, 3)), 4000),
+                 ("g_t3", consts(3, known, 3, 1, 2, 2, toseq=(1, 2, 1)), 3000)]
     out = []
 
     def dump(item):
@@ -790,7 +790,7 @@ def run(tier, seed, replay=None):
         return tid
 
     # code -> spec, real Simulation (long traces first: their validation overlaps everything else)
-    n_sim = 16 if quick else 150
+    n_sim = 16 if quick else 120
     n_ff = 5 if quick else 30
     prog_fail = {}
     sim_events = 0
@@ -813,7 +813,7 @@ def run(tier, seed, replay=None):
     flush()
 
     # code -> spec, direct drive
-    n_rand = 320 if quick else 3000
+    n_rand = 320 if quick else 2200
     styles = {}
     for k in range(n_rand):
         n = (3, 3, 5, 4)[k % 4]
@@ -887,7 +887,13 @@ def run(tier, seed, replay=None):
     chk.extra["traces_with_contract_failure"] = n_fail
     chk.extra["traces_with_model_mismatch_only"] = n_drift
     chk.extra["verdict_histogram"] = _hist(v[0] for v in verdicts_all.values())
-    chk.exhaustive = all(chk.extra.get("tour_complete", {}).values()) if chk.extra.get("tour_complete") else False
+    # exhaustive = every edge of the three small as-code state graphs was executed on the real nodes
+    tc = chk.extra.get("tour_complete", {})
+    chk.exhaustive = bool(tc) and all(tc.get(g, False) for g in ("g_t2_l1", "g_crash", "g_l2"))
+    chk.extra["exhaustive_scope"] = ("edge tour of state graphs g_t2_l1 (3 nodes, terms<=2, log<=1, 1 op, <=2 msgs, "
+                                     "timeouts n1 then n2), g_crash (term 1, 1 crash), g_l2 (term 1, log<=2, 2 ops) "
+                                     "of the as-code model; TLC runs listed in tlc_runs are exhaustive within their "
+                                     "constants")
     chk.assumptions = [
         "nodes 1..N with N in 3..5; commands are distinct integers (op ids); state machine = recorder",
         "crash = the repository's CrashNode/PauseNode (_crashed flag: state retained, deliveries and timers dropped)",
